@@ -46,7 +46,7 @@ def run(tier, rng, C):
         if obs_kind(ref) != 'ok':
             continue
         entries = ref[3:].split(' | ')[1:]
-        names = sorted(p[-1][:-4] for p in c['inv'].nodes)
+        names = sorted(('.'.join(p)[:-4] if c['inv'].compose else p[-1][:-4]) for p in c['inv'].nodes)
         order = names + names
         rng.shuffle(order)
         for j, nm in enumerate(order):
